@@ -98,6 +98,10 @@ def run(plan):
                 for k in FIELDS:
                     if k == "beep":
                         ac.beep = st[k]
+                    elif k == "target_temperature" and st[k] == int(st[k]) and plan.get("int_values"):
+                        ac.target_temperature = int(st[k])        # whole degrees given as an int
+                    elif k == "fan_speed" and plan.get("int_values") and st[k] not in (20, 40, 60, 80, 100, 102):
+                        ac.fan_speed = float(st[k])               # the setter documents int | float
                     else:
                         s.set_attr(ac, k, st[k])
             n0 = len(dev.controls)
@@ -154,7 +158,7 @@ def run(plan):
     except (SimDeadlock, SimStepLimit) as e:
         res.fail(f"liveness: {type(e).__name__}", str(e))
     res.take(w)
-    res.key = (plan.get("mode"), plan.get("turbo_report"), tuple(tuple(sorted(st.items())) for st in states))
+    res.key = (plan.get("mode"), plan.get("turbo_report"), bool(plan.get("int_values")), tuple(tuple(sorted(st.items())) for st in states))
     res.nontrivial = True
     return res
 
@@ -212,6 +216,7 @@ def space(tier):
 
     def f_rand(j, rng):
         p = mk([rand_state(rng) for _ in range(8)], j)
+        p["int_values"] = (j % 3 == 0)
         r = j % 4
         if r == 1:
             p["mode"] = "during_refresh"
